@@ -293,6 +293,11 @@ C09(scn, obs) ==
     \* (a backend that breaks its own protocol on a pass-through route talks to the client directly)
     IF Rejected(scn) \/ ~C09Faulty(scn) \/ scn.hd.ignore \/ (PassThru(scn) /\ HandlerSideFault(scn)) THEN {} ELSE
       (IF ClientSeesOk(obs) THEN {"C09.FaultSurfacedAsSuccess"} ELSE {})
+      \* an un-framed request body that stopped short of its declared Content-Length is one unfinished message:
+      \* the backend is not handed it as a complete one (even if it then sees a read error)
+      \cup (IF ~Enveloped(scn.cl.form) /\ scn.cl.clen = "over" /\ Dispatched(obs) /\ ~scn.hd.noread
+               /\ (\E i \in DOMAIN TheDisp(obs).frames : TheDisp(obs).frames[i].id >= 1)
+            THEN {"C09.UnfinishedRequestDelivered"} ELSE {})
       \* (when the backend stops inside a frame that was already being streamed to the client the
       \*  response can only break off; otherwise there must be a terminal disposition)
       \* (the error's end frame is then written into the space the announced payload should have taken; when it
